@@ -24,6 +24,7 @@ func c15(r *core.Run) {
 	r.Explanation = "Static rules over storage.MsgInitProvider / MsgShutdownProvider and a closed-world census: the locked coins and the recorded Collateral.Amount come from the single source Param(CollateralPrice), paid by and keyed by the signer, only when no provider record exists; the refund is exactly the loaded record's amount (never the current price), paid to the signer, and every committing path after it deletes the collateral record and the provider; no other handler or block path writes collateral records or names the collateral module account in a bank call; the account is registered in the app's module-account permissions; bank errors propagate."
 	r.Assumptions = []string{T1, T3, T4, T6}
 	r.NotDecided = []string{"the numeric invariant escrow balance = Σ collaterals (follows from R1–R4 given T3)"}
+	r.Rule("C15/R7", "nothing else pays into the escrow: the account name the application wires into the storage keeper as its fee collector is the chain's fee collector, not the collateral account (the staker share of a storage purchase is sent to that name)")
 	r.Rule("C15/R6", "collateral records are enumerated exhaustively wherever they are listed (genesis export): no pagination helper, no iterator loop left early — a record dropped from the export leaves its collateral in the escrow with nobody entitled to it after a restart from genesis")
 	r.Rule("C15/R1", "lock = record: in InitProvider the coin amount and Collateral.Amount depend only on Param(CollateralPrice); payer and keys ⊵ signer; all effects behind Found(provider)=false")
 	r.Rule("C15/R2", "refund = record: in ShutdownProvider amount ⊵ loaded Collateral.Amount only (⋫ Param(CollateralPrice)); recipient ⊵ signer; every committing path after the send deletes the collateral record and the provider; all effects behind Found(provider)=true")
@@ -49,6 +50,11 @@ func c15(r *core.Run) {
 		}
 	}
 	r.Floor("C15/R6", exhaustiveEnumeration(r, "C15/R6", "storage-collateral", collFns)+len(collFns), 1, "collateral enumerations")
+	if v, where, ok := keeperFieldWiring(p, "storage", "feeCollectorName"); !ok {
+		r.Undecided("C15/R7", "app:storage-keeper:fee-collector-name", "", "the constructor argument bound to Keeper.feeCollectorName was not resolved to one constant in package app")
+	} else {
+		r.Check(v == "fee_collector", "C15/R7", "app:storage-keeper:fee-collector-name", where, "storage keeper's fee collector = \"fee_collector\"", "the application wires the account \""+v+"\" into the storage keeper as its fee collector: the staker share of every unreferred storage purchase is paid into that account instead of the chain's fee collector (into the collateral escrow if it is that account, which then holds more than the recorded collaterals)")
+	}
 	hs, err := p.Handlers()
 	if err != nil {
 		r.Undecided("C15/R1", "handlers", "", err.Error())
@@ -94,21 +100,52 @@ func c15(r *core.Run) {
 		r.Check(collName != "" && collName != "storage", "C15/R1", hi.Key()+":escrow-account", p.InstrPos(bo.Instr), "collateral locked in a dedicated constant module account ("+collName+")", "collateral is locked in the general storage module account (or a non-constant account), mixing it with payment funds")
 	}
 	nRec := 0
-	for _, e := range p.Effects(hi.Fn) {
-		call, ok := e.Instr.(ssa.CallInstruction)
-		if !ok || !effHas(e, "Set", stCollateral) {
+	// the call of the record setter itself, in the handler or in a helper it delegates the writes to
+	for _, wfn := range p.Summary(hi.Fn).Funcs {
+		if isAccessorFn(p, wfn) {
 			continue
 		}
-		nRec++
-		args := dataArgs(call)
-		rec := args[len(args)-1]
-		am := p.ProvAt(rec, ".Amount", call).DataAtoms()
-		okA := len(am) == 1 && am[0].Kind == "params" && am[0].Path == ".CollateralPrice"
-		r.Check(okA, "C15/R1", hi.Key()+":recorded-amount", p.InstrPos(call), "Collateral.Amount ⊵ Param(CollateralPrice) only", "recorded collateral differs from the amount locked")
-		r.Check(p.OnlyMsgField(p.ProvAt(rec, ".Address", call), hi, "Creator"), "C15/R1", hi.Key()+":recorded-owner", p.InstrPos(call), "Collateral.Address ⊵ signer only", "collateral recorded for an account other than the payer")
-		// lock precedes or follows on all committing paths
-		if len(in) == 1 {
-			r.Check(p.BypassExists(hi.Fn, in[0].Instr, call, false) == nil, "C15/R1", hi.Key()+":lock-recorded", p.InstrPos(call), "every committing path after the lock records it", "a committing path locks collateral without recording it")
+		for _, e := range p.Effects(wfn) {
+			call, ok := e.Instr.(ssa.CallInstruction)
+			if !ok || e.Direct || !performsDirectly(p, wfn, e, "Set", stCollateral) {
+				continue
+			}
+			nRec++
+			args := dataArgs(call)
+			rec := args[len(args)-1]
+			am := p.ResolveToEntry(p.ProvAt(rec, ".Amount", call), hi.Fn).DataAtoms()
+			okA := len(am) == 1 && am[0].Kind == "params" && am[0].Path == ".CollateralPrice"
+			r.Check(okA, "C15/R1", hi.Key()+":recorded-amount", p.InstrPos(call), "Collateral.Amount ⊵ Param(CollateralPrice) only", "recorded collateral differs from the amount locked")
+			r.Check(p.OnlyMsgField(p.ProvAt(rec, ".Address", call), hi, "Creator"), "C15/R1", hi.Key()+":recorded-owner", p.InstrPos(call), "Collateral.Address ⊵ signer only", "collateral recorded for an account other than the payer")
+			// lock precedes or follows on all committing paths
+			if len(in) == 1 && in[0].Fn == wfn {
+				r.Check(p.BypassExists(wfn, in[0].Instr, call, false) == nil, "C15/R1", hi.Key()+":lock-recorded", p.InstrPos(call), "every committing path after the lock records it", "a committing path locks collateral without recording it")
+			} else if len(in) == 1 {
+				// the lock and the record write sit in different functions: judge in the handler, each represented by
+				// the call that leads to it
+				siteIn := func(f *ssa.Function, at ssa.Instruction) ssa.Instruction {
+					if f == hi.Fn {
+						return at
+					}
+					var site ssa.Instruction
+					allInstrs(hi.Fn, func(in2 ssa.Instruction) {
+						if c2, isCall := in2.(ssa.CallInstruction); isCall {
+							for _, cal := range p.Callees(c2) {
+								if cal == f {
+									site = in2
+								}
+							}
+						}
+					})
+					return site
+				}
+				ls, ws := siteIn(in[0].Fn, in[0].Instr), siteIn(wfn, call)
+				if ls == nil || ws == nil {
+					r.Undecided("C15/R1", hi.Key()+":lock-recorded", p.InstrPos(call), "the lock and the record write sit in functions the handler does not call directly")
+				} else {
+					r.Check(ls == ws || p.BypassExists(hi.Fn, ls, ws, false) == nil, "C15/R1", hi.Key()+":lock-recorded", p.InstrPos(call), "every committing path after the lock records it", "a committing path locks collateral without recording it")
+				}
+			}
 		}
 	}
 	if nRec != 1 {
